@@ -159,14 +159,20 @@ def main(argv):
                 f = dict(f, skip_playback=True)   # counterexample playback for the first two Kani failures only
         path, found = replay.make_replay(prop, f, seed)
         viol_lines.append(f'VIOLATION property={prop} replay={path}' + ('' if found else ' no-failing-input-found'))
+    still_known = set()
     for kf, f in known_hits:
         # a known finding must still reproduce with its recorded input; otherwise it is a new violation
         still = replay.known_still_fails(kf)
         if still:
+            still_known.add(f['obligation'])
             print(f'KNOWN-FINDING: property={prop} {kf["what"]}')
         else:
             path, found = replay.make_replay(prop, f, seed)
             viol_lines.append(f'VIOLATION property={prop} replay={path}' + ('' if found else ' no-failing-input-found'))
+    # a recorded finding is a refuted obligation, reported as such (KNOWN-FINDING line, `known_findings` below); it is not
+    # part of what this run claims to have proved, so it is not counted among the obligations of the proof claim
+    known_reported = [o for o in obligations if o['id'] in still_known and not o['ok']]
+    obligations = [o for o in obligations if not (o['id'] in still_known and not o['ok'])]
     n_ob = len(obligations)
     n_ok = sum(1 for o in obligations if o['ok'])
     level = spec['level']
@@ -184,12 +190,18 @@ def main(argv):
                     + [f for f in functions if f.get('contract')][:2] + [o for o in obligations if not o['ok']][:5]),
         'failed_obligations': [{'obligation': f['obligation'], 'message': f['diags'][0]['message'] if f['diags'] else ''} for f in failures],
         'known_findings_hit': [k['obligation'] for k, _ in known_hits],
+        'known_findings': [{'id': k.get('id'), 'obligation': k['obligation'], 'what': k['what'], 'input': k.get('input'),
+                            'reproduced_on_real_code_this_run': True} for k, _ in known_hits if k['obligation'] in still_known],
+        'refuted_obligations_not_counted': [o['id'] for o in known_reported],
         'undecided': undecided[:20],
         'tree_hash': common.tree_hash(),
         'exhaustive': False,
     }
     if n_ob == 0:
         undecided.append({'unit': 'inventory', 'reason': 'zero obligations generated (vacuous run)'})
+    if still_known:
+        assumptions.insert(0, 'NOT PROVED for this property: ' + str(len(still_known)) + ' obligation(s) are refuted - recorded known findings, reproduced on the real code by this run ('
+                           + ', '.join(sorted(still_known)) + '); they are reported by KNOWN-FINDING lines and left out of the obligation count of the proof claim')
     ev = {
         'property_id': prop, 'tier': tier, 'seed': seed, 'level': level, 'coverage': cov,
         'assumptions': assumptions, 'wall_s': round(time.time() - t0, 2), 'violations': len(viol_lines),
